@@ -50,6 +50,12 @@ def run(R):
                      "one straight-line region with no fallible step between; the id is the pre-push length; the key is "
                      "looked up before allocating; in try_* bodies before_allocation dominates the push")
     R.rule("C07-R3", "twin skeleton: X and try_X call the same manager operations (after try_Y -> Y) and write the same fields")
+    R.rule("C07-R5", "perturbed weights are restored: inside wmc_gradient every variable's positive and negative weight is set back to "
+                     "the value read before the perturbation, on every path of the iteration (afterwards the manager answers as before)")
+    R.rule("C07-R6", "no unguarded division in model counting: in everything reachable from wmc / wmc_gradient a floating-point "
+                     "division has a non-zero constant divisor or is dominated by a test of the divisor against zero (weights may be "
+                     "0 or 1 exactly: a quotient by `1 - p` is NaN for a certain seed and silently drops its derivative)")
+    r5_r6(R)
     R.rule("C07-R4", "budget closure: no unbudgeted mutating manager operation is reachable from a try_* operation")
     adt = R.anchor("C07-R1", "adt SddManager", prog.adt(MGR))
     if not adt:
@@ -293,3 +299,131 @@ def _same_src(b, op1, op2):
         return l
     a, c = src(op1), src(op2)
     return a is not None and a == c
+
+
+def r5_r6(R):
+    from lib import guards as G
+    prog = R.prog
+    g = R.body("C07-R5", "diff_sdd::wmc_gradient", crate="shared")
+    if g is not None:
+        R.saw(g)
+        loops = g.loops()
+        for kind in ("pos", "neg"):
+            sets = [c for c in g.calls() if c.name() == "set_%s_weight" % kind]
+            getter = "%s_weight" % kind
+
+            def from_getter(op, depth=0):
+                if depth > 10:
+                    return False
+                o = g.origin(op, stop_named=False)
+                if o[0] == "call":
+                    if o[1].name() == getter:
+                        return True
+                    return any(from_getter(a, depth + 1) for a in o[1].args[:1])
+                if o[0] == "place":
+                    ds = g.defs().get(o[1]["l"], [])
+                    for d in ds:
+                        if d[0] == "call" and (d[2].name() == getter or any(from_getter(a, depth + 1) for a in d[2].args[:1])):
+                            return True
+                        if d[0] == "assign":
+                            for p2, k2 in F.rv_places(d[3]):
+                                if from_getter({"k": "copy", "pl": p2}, depth + 1):
+                                    return True
+                return False
+            restoring = [c for c in sets if len(c.args) >= 3 and from_getter(c.args[2])]
+            perturbing = [c for c in sets if c not in restoring]
+            R.ob("C07-R5", "restores:" + kind, "wmc_gradient writes the saved %s weight back (found %d restoring / %d perturbing writes)"
+                 % (kind, len(restoring), len(perturbing)), len(restoring) >= 1 and len(perturbing) >= 1, where=g.where())
+            for pi, c in enumerate(perturbing):
+                hs = {h for h, blk in g.loops_containing(c.bb)}
+                ok = bool(restoring) and bool(hs) and not (g.reach_from(g.succ(c.bb), avoid={r.bb for r in restoring}) & (hs | set(g.exits())))
+                R.ob("C07-R5", "restored-after:%s:%d" % (kind, pi), "after the %s weight is perturbed, every path to the next variable (or out) restores it"
+                     % kind, ok, where=g.where(c.ln), detail=None if ok else "a path leaves the perturbed weight in the manager: later counts are wrong")
+            # the saved value is read before the first perturbation
+            for r in restoring:
+                o = g.alias_root(r.args[2])
+                ds = [d for d in g.defs().get(o, []) if d[0] in ("call", "assign")] if o is not None else []
+                before = bool(ds) and all(all(g.dominates(d[1], c.bb) and d[1] != c.bb or d[1] == c.bb and False or g.dominates(d[1], c.bb) for c in perturbing) for d in ds)
+                R.ob("C07-R5", "saved-first:" + kind, "the %s weight written back was read before the perturbation" % kind, before, where=g.where(r.ln))
+    # ---- R6
+    entries = [b for b in prog.bodies.values() if b.crate == "shared" and not b.is_closure and "::tests::" not in b.key and
+               ((b.name == "wmc_gradient") or (b.name in ("wmc", "wmc_rec", "wmc_node", "weighted_model_count") and "sdd" in b.file))]
+    R.floor("C07-R6", "model-counting entry points", len(entries), 2)
+    reach = prog.reachable([b.key for b in entries])
+    scope = [prog.bodies[k] for k in reach if k in prog.bodies and prog.bodies[k].crate == "shared"]
+    scope_all = set()
+    for b in scope:
+        for x in prog.family(b.key):
+            scope_all.add(x.key)
+    ndiv = 0
+    for k in sorted(scope_all):
+        b = prog.bodies[k]
+        R.saw(b)
+        for bb, i, pl, rv, st in b.assigns():
+            if rv["rv"] != "binop" or rv["op"] != "Div":
+                continue
+            isf = any(("f64" in str(x.get("ty", "")) or (F.op_local(x) is not None and b.local_ty(F.op_local(x)) in ("f64", "f32"))) for x in (rv["a"], rv["b"]))
+            if not isf:
+                continue
+            ndiv += 1
+            ok, why = _div_guarded(b, bb, rv["b"], G)
+            R.ob("C07-R6", "div:%s:%d" % (b.short, ndiv), "the floating-point division in %s has a divisor that cannot be zero" % b.short, ok,
+                 where=b.where(st.get("ln")), detail=None if ok else why)
+    # positive control for the detector: it must see a float division where there is one (the window scope arithmetic)
+    sc = prog.one("CSPARQLWindow::scope", crate="kolibrie")
+    seen = 0
+    if sc is not None:
+        for bb, i, pl, rv, st in sc.assigns():
+            if rv["rv"] == "binop" and rv["op"] == "Div" and not pl["p"] and sc.local_ty(pl["l"]) in ("f64", "f32"):
+                seen += 1
+    R.advisory("C07-R6", "float divisions in the model-counting scope: %d (bodies: %d); detector control: %d float division(s) seen in CSPARQLWindow::scope"
+               % (ndiv, len(scope_all), seen))
+    R.floor("C07-R6", "bodies reachable from the model-counting entry points", len(scope_all), 3)
+
+
+def _fconst(o):
+    import re
+    if o.get("k") != "const":
+        return None
+    m = re.match(r"^(?:const )?([-+]?[0-9][0-9_.]*(?:[eE][-+]?[0-9]+)?)", str(o.get("d") or o.get("v") or ""))
+    if not m:
+        return None
+    try:
+        return float(m.group(1).replace("_", ""))
+    except ValueError:
+        return None
+
+
+def _div_guarded(b, bb, divisor, G):
+    d = str(divisor.get("d") or divisor.get("v") or "")
+    if divisor.get("k") == "const":
+        val = _fconst(divisor)
+        if val is None:
+            return False, "constant divisor of unknown value"
+        return (val != 0.0), "constant zero divisor"
+    root = b.alias_root(divisor)
+    for cd in G.conditions(b, bb):
+        if cd.get("kind") != "cmp":
+            continue
+        n = G.normalize_cmp(b, cd)
+        if n is None:
+            continue
+        op, x, y = n
+
+        def refers(o):
+            if F.op_place(o) is None:
+                return False
+            if b.alias_root(o) == root:
+                return True
+            oo = b.origin(o, stop_named=False)
+            return oo[0] == "call" and oo[1].name() == "abs" and oo[1].args and b.alias_root(oo[1].args[0]) == root
+
+        def is_small_const(o):
+            v = _fconst(o)
+            return v is not None and v >= 0.0
+        if refers(x) and is_small_const(y) and op in ("Gt", "Ne"):
+            return True, None
+        if refers(y) and is_small_const(x) and op in ("Lt", "Ne"):
+            return True, None
+    return False, ("the divisor is a runtime value (a weight or a count) and no dominating test excludes zero: for a seed with probability exactly 1 "
+                   "(negative weight 0) the quotient is NaN or infinite and the derivative is lost")
